@@ -155,6 +155,20 @@ func genTriangles(n int, coords string, seed uint64) []*sdf.Triangle3 {
 				t[1], t[2] = t[2], t[1]
 			}
 		}
+		if r.Intn(20) == 0 {
+			// a sliver thinner than the float32 spacing of its coordinates: rounding the
+			// vertices to float32 may reverse its orientation (or flatten it); a reader
+			// must still hand back the stored vertices in the stored order
+			a := v3.Vec{X: wildFloat(r, 1), Y: wildFloat(r, 1), Z: wildFloat(r, 1)}
+			b := v3.Vec{X: wildFloat(r, 1), Y: wildFloat(r, 1), Z: wildFloat(r, 1)}
+			s := r.Float64()
+			w := math.Pow(10, -9-4*r.Float64())
+			c := v3.Vec{X: a.X + s*(b.X-a.X) + w*(b.Y-a.Y), Y: a.Y + s*(b.Y-a.Y) - w*(b.X-a.X), Z: a.Z + s*(b.Z-a.Z)}
+			t = sdf.Triangle3{a, b, c}
+			if r.Intn(2) == 0 {
+				t[1], t[2] = t[2], t[1]
+			}
+		}
 		if i > 0 && r.Intn(16) == 0 {
 			t = *out[r.Intn(i)] // duplicate triangle
 		}
@@ -185,9 +199,9 @@ func genLines(n int, coords string, seed uint64) []*sdf.Line2 {
 	r := simcore.NewRNG(seed)
 	var pool []v2.Vec
 	for i := range out {
-		cls := []int{0, 1, 2, 6, 7, 3, 8, 8, 1, 4}[r.Intn(10)]
+		cls := []int{0, 1, 2, 6, 7, 3, 8, 8, 1, 4, 10, 11}[r.Intn(12)]
 		if coords == "wild-small" {
-			cls = []int{0, 1, 2, 6, 8}[r.Intn(5)]
+			cls = []int{0, 1, 2, 6, 8, 10, 11}[r.Intn(7)]
 		}
 		if coords != "wild-small" && r.Intn(12) == 0 {
 			cls = 9
